@@ -5,6 +5,7 @@ CONSTANTS
   Tier = "thorough"
   Ops = {}
   Rcs = {}
+  Names = {}
   Vers = {}
   ELos = {}
   RVals = {}
